@@ -726,6 +726,8 @@ def lean_request(case, u):
             return dict(base, op="svd", members=lean_members(case, True), prec=core.rat(DEFAULT_PREC),
                         minp=core.rat(float(MINP)), bound=True, cut2=core.rat(CUT2))
         return dict(base, op="svd", members=lean_members(case, True), prec="0", minp="0", cut2=core.rat(CUT2))
+    if kind == "keys":
+        return {"op": "keys", "ops": case["ops"]}
     if kind in ("dm", "dm-tagged"):
         nmax = max(sum(len(x) for x in t["state"]) for mb in case["members"] for t in mb["terms"])
         return dict(base, op="dm", members=lean_members(case, True), nmax=nmax)
@@ -1864,7 +1866,131 @@ def judge_dm(chk, case, rep, sim, circuit, u, record):
                prop_dm_svd())
 
 
-JUDGES.update({"bs": judge_bs, "sv": judge_sv, "svd": judge_svd, "dm": judge_dm})
+# ------------------------------------------------------------------------------------------------
+# the weights of a mixture: SVDistribution as a dict keyed by normalised vectors (Model/C03Keys.lean, Props section 13)
+# ------------------------------------------------------------------------------------------------
+KEY_SCALES = [None, 1.0, 2.0, 4.0, 0.5, 0.25]     # None: normalised before use; the others: un-normalised, scaled by a
+                                                  # power of two (the native normalisation then gives bit-identical keys)
+
+
+def key_vector(case, op):
+    sv = build_sv(case["members"][op["c"]]["terms"])
+    f = KEY_SCALES[op["s"]]
+    if f is None:
+        sv.normalize()
+        return sv
+    return f * sv
+
+
+def gen_keys_case(rng, chk):
+    m = rng.choice([2, 3])
+    case = {"kind": "keys", "m": m, "engine": rng.choice(ENGINES), "prec": "0",
+            "circ": gen_circuit_spec(rng, m, rng.randint(2, 4))}
+    used, members = set(), []
+    ntags = rng.choice([0, 0, 2])
+    for _ in range(rng.randint(2, 3)):
+        terms = gen_terms(rng, m, 2, ntags, rng.choice([1, 2, 2, 3]), True, used)
+        if terms:
+            members.append({"w": "1", "terms": terms})
+    case["members"] = members
+    ops = []
+    for _ in range(rng.randint(3, 7)):
+        c = rng.randrange(len(members))
+        k = rng.choice(["set", "iadd", "iadd", "iadd", "read"])
+        op = {"k": k, "c": c, "s": rng.randrange(len(KEY_SCALES))}
+        if k != "read":
+            op["w"] = core.rat(Fraction(rng.randint(1, 9), rng.choice([10, 20, 16])))
+        ops.append(op)
+    # every component ends with some weight
+    for c in range(len(members)):
+        if not any(o["c"] == c and o["k"] != "read" for o in ops):
+            ops.append({"k": "iadd", "c": c, "s": rng.randrange(len(KEY_SCALES)), "w": core.rat(Fraction(rng.randint(1, 9), 10))})
+    case["ops"] = ops
+    return case
+
+
+def judge_keys(chk, case, rep, sim, circuit, u, record):
+    """`svd[ψ] = v`, `svd[ψ] += w` / `svd.add(ψ, w)`, `svd[ψ]` on a real SVDistribution with keys in several scalings:
+    the stored weight of every component must be the intended one (assignments replace, += accumulates, a read changes
+    nothing) — theorem svd_weights_fixed for the repaired container; then Simulator.probs_svd of the resulting mixture
+    must be the weighted sum of the components' distributions with those weights"""
+    import perceval as pcvl
+    m = case["m"]
+    members, ops = case["members"], case["ops"]
+    chk.branch("keys")
+    # the intended weights, computed here independently of Lean
+    want = {}
+    for op in ops:
+        if op["k"] == "set":
+            want[op["c"]] = Fraction(op["w"])
+        elif op["k"] == "iadd":
+            want[op["c"]] = want.get(op["c"], Fraction(0)) + Fraction(op["w"])
+        else:
+            want.setdefault(op["c"], Fraction(0))
+    model = {c: Fraction(w) for c, w in rep["fixed"]}
+    if model != want or {c: Fraction(w) for c, w in rep["intended"]} != want:
+        raise Bad("model-internal", f"the model's repaired container stores {model}, intended {want}")
+    svd = pcvl.SVDistribution()
+    stored = set()
+    for op in ops:
+        k = key_vector(case, op)
+        if op["s"] and op["c"] in stored:
+            chk.branch("keys-unnormalised-existing-" + op["k"])
+        if op["k"] == "set":
+            svd[k] = float(Fraction(op["w"]))
+        elif op["k"] == "iadd":
+            if Fraction(op["w"]).denominator % 5 == 0:
+                svd.add(k, float(Fraction(op["w"])))
+            else:
+                svd[k] += float(Fraction(op["w"]))
+        else:
+            _ = svd[k]
+        stored.add(op["c"])
+    refs = []
+    for c in range(len(members)):
+        r = build_sv(members[c]["terms"])
+        r.normalize()
+        refs.append(sv_to_dict(r))
+    got = {}
+    for key, w in svd.items():
+        kd = sv_to_dict(key)
+        owner = [c for c, r in enumerate(refs) if cmp_amps(kd, r, 1e-9) is None]
+        if len(owner) != 1:
+            raise Bad("harness", "a key of the SVDistribution is not one of the components")
+        got[owner[0]] = got.get(owner[0], 0.0) + float(w)
+    cur = {c: Fraction(w) for c, w in rep["current"]}
+    for c, w in sorted(want.items()):
+        if not core.close(got.get(c, 0.0), float(w)):
+            as_pinned = all(core.close(got.get(c2, 0.0), float(cur.get(c2, 0))) for c2 in want)
+            seq = "; ".join(("svd[%s·ψ%d]%s" % ("n" if KEY_SCALES[o["s"]] is None else KEY_SCALES[o["s"]], o["c"],
+                             {"set": " = " + o.get("w", ""), "iadd": " += " + o.get("w", ""), "read": " read"}[o["k"]]))
+                            for o in ops)
+            record("svd-weight-unnormalised-key",
+                   f"SVDistribution after [{seq}] (n·ψ: normalised vector, f·ψ: the same vector scaled by f) stores "
+                   f"{got.get(c, 0.0)!r} for component ψ{c}, the operations add up to {float(w)!r}"
+                   + (" — the weights are those of the model of the pinned __getitem__ (key looked up un-normalised)"
+                      if as_pinned else ""), False, True)
+            return
+    # the mixture so built, simulated
+    tot = sum(float(w) for w in want.values())
+    if tot <= 0:
+        return
+    ref = {}
+    for c, w in want.items():
+        if w == 0:
+            continue
+        terms = members[c]["terms"]
+        inp = build_sv(terms) if len(terms) > 1 else build_bs(terms[0]["state"])
+        for o, p in bsd_to_dict(make_sim(case["engine"], circuit, 0).probs(inp)).items():
+            ref[o] = ref.get(o, 0.0) + float(w) / tot * p
+    obs = bsd_to_dict(sim.probs_svd(svd)["results"])
+    d = cmp_float_dist(obs, ref, 1e-7)
+    if d:
+        record("svd-accumulated-mixture", f"probs_svd of the accumulated mixture [{d[0]}] = {d[1]!r}, the weighted sum of "
+               f"the components gives {d[2]!r}", False, True)
+
+
+JUDGES.update({"bs": judge_bs, "sv": judge_sv, "svd": judge_svd, "dm": judge_dm, "keys": judge_keys})
 
 
 # ------------------------------------------------------------------------------------------------
@@ -1900,6 +2026,13 @@ def shrink(chk, case, sig):
                 c["circ"]["comps"] = cs
                 return fails_with(c)
             cur["circ"]["comps"] = gens.shrink_list(comps, f5, max_rounds=12)
+        return cur
+    if cur["kind"] == "keys":
+        def f6(ops):
+            c = copy.deepcopy(cur)
+            c["ops"] = ops
+            return fails_with(c)
+        cur["ops"] = gens.shrink_list(cur["ops"], f6, max_rounds=15)
         return cur
     comps = cur["circ"]["comps"]
     if len(comps) > 1:
@@ -1960,7 +2093,8 @@ def _work(args):
 def signature(case):
     return (case["kind"], case["m"], case["engine"], case["prec"],
             json.dumps(case.get("steps", case["members"]), sort_keys=True),
-            json.dumps(case["circ"]["comps"], sort_keys=True))
+            json.dumps(case["circ"]["comps"], sort_keys=True)) + \
+        ((json.dumps(case["ops"], sort_keys=True),) if case["kind"] == "keys" else ())
 
 
 def nontrivial(case):
@@ -1968,6 +2102,8 @@ def nontrivial(case):
     if k == "bs":
         st = case["members"][0]["terms"][0]["state"]
         return len(tags_of(st)) >= 2 and len(case["circ"]["comps"]) >= 2
+    if k == "keys":
+        return len(case["ops"]) >= 3 and len(case["members"]) >= 2
     if k in ("sv", "svd", "dm"):
         return len(case["circ"]["comps"]) >= 2 and sum(len(mb["terms"]) for mb in case["members"]) >= 2
     if k == "session":
@@ -2096,7 +2232,9 @@ def run(chk: core.Check):
                              "evolve-cut-model-loss",
                              "mixed-bs", "mixed-multi-group", "mixed-one-group-unlabelled", "mixed-one-group-labelled",
                              "mixed-out", "mixed-sv", "mixed-svd-fast", "mixed-svd-generic",
-                             "mixed-svd-fast-default-precision", "mixed-svd-generic-default-precision"]
+                             "mixed-svd-fast-default-precision", "mixed-svd-generic-default-precision",
+                             "keys", "keys-unnormalised-existing-iadd", "keys-unnormalised-existing-read",
+                             "keys-unnormalised-existing-set"]
     rng = chk.rng
     n_lean = chk.pick(4, 8)
     drivers = [core.LeanDriver("C03") for _ in range(n_lean)]
@@ -2111,9 +2249,9 @@ def run(chk: core.Check):
                       "dm-weak-coherent-term", "dm-weak-member"]
         before = {b: chk.branches.get(b, 0) for b in gen_shapes}
         plan = chk.pick({"bs": 110, "sv": 90, "svd": 90, "svd-default": 70, "dm": 40, "session": 36, "bad": 30,
-                         "bs+mixed": 40, "sv+mixed": 30, "svd+mixed": 30, "svd-default+mixed": 24},
+                         "bs+mixed": 40, "sv+mixed": 30, "svd+mixed": 30, "svd-default+mixed": 24, "keys": 40},
                         {"bs": 1500, "sv": 1300, "svd": 1400, "svd-default": 600, "dm": 600, "session": 400, "bad": 300,
-                         "bs+mixed": 500, "sv+mixed": 400, "svd+mixed": 400, "svd-default+mixed": 200})
+                         "bs+mixed": 500, "sv+mixed": 400, "svd+mixed": 400, "svd-default+mixed": 200, "keys": 400})
         cases = []
         for name, cnt in plan.items():
             for _ in range(cnt):
@@ -2122,6 +2260,8 @@ def run(chk: core.Check):
                     k = name[:-6]
                     cases.append(gen_case(rng, chk, "svd" if k == "svd-default" else k,
                                           "default" if k == "svd-default" else "0", mixed=True))
+                elif name == "keys":
+                    cases.append(gen_keys_case(rng, chk))
                 elif name == "bad":
                     cases.append(gen_malformed(rng))
                 elif name == "svd-default":
